@@ -15,6 +15,7 @@
  * FZ_SKIP: oid33, seqint, iap, dpuri (x509_uri_as_distribution_points_from_der is not called), aia (an access method other than OCSP / caIssuers after the AuthorityInfoAccess id)
  */
 #define FZ_TARGET "fz_x509"
+#define FZ_DER_PREFIX 2
 #include "fz_common.h"
 #include <gmssl/asn1.h>
 #include <gmssl/oid.h>
